@@ -870,7 +870,45 @@ func (h *ipamHist) reconcile() (reconcile.Result, error) {
 		res, err = h.ctl.Reconcile(context.Background(), reconcile.Request{NamespacedName: k8stypes.NamespacedName{Name: "node-1"}})
 	}()
 	h.afterReconcile()
+	if err == nil {
+		h.judgeAdoption()
+	}
 	return res, err
+}
+
+// judgeAdoption (C02): after a reconcile that returned without error, a pod that reports an address which the
+// record holds (Valid, on an InUse interface, not bound to another pod) must be bound to exactly that address.
+func (h *ipamHist) judgeAdoption() {
+	m := h.mon
+	m.mu.Lock()
+	defer m.mu.Unlock()
+	if m.lastCR == nil {
+		return
+	}
+	for _, p := range m.pods {
+		if !p.Exists || p.Exited || p.Skip != "" {
+			continue
+		}
+		for fam, rep := range map[string]string{"v4": p.RepV4, "v6": p.RepV6} {
+			if rep == "" || (fam == "v4" && !h.cfg.V4) || (fam == "v6" && !h.cfg.V6) {
+				continue
+			}
+			for id, e := range m.lastCR.Status.NetworkInterfaces {
+				set := e.IPv4
+				if fam == "v6" {
+					set = e.IPv6
+				}
+				v := set[rep]
+				if v == nil || e.Status != "InUse" || v.Status != v1beta1.IPStatusValid {
+					continue
+				}
+				m.r.Count("reported_addresses_checked_for_adoption", 1)
+				if v.PodID == "" {
+					m.violate("C02", "C02.reported-address-not-adopted", fam, fmt.Sprintf("pod %s reports %s, the record holds it idle on %s after a successful reconcile instead of binding it to the pod", p.Name, rep, id))
+				}
+			}
+		}
+	}
 }
 
 // afterReconcile: read the stored record back and compare with what the agent would hand to each pod.
